@@ -4,6 +4,7 @@
 //! memories, tables, exports, element and data segments) into JSON.  Deciding what that output MEANS is the
 //! solver's job (vlib/mv.py); nothing is judged here.
 use serde_json::{json, Value};
+use std::panic::{catch_unwind, AssertUnwindSafe};
 use wasm_encoder as we;
 use wirm::ir::function::FunctionBuilder;
 use wirm::ir::id::{FunctionID, GlobalID, MemoryID};
@@ -11,6 +12,7 @@ use wirm::ir::module::module_globals::GlobalKind;
 use wirm::ir::types::{DataSegment, DataSegmentKind, DataType, InitExpr, InitInstr, Location, Value as WValue};
 use wirm::iterator::iterator_trait::IteratingInstrumenter;
 use wirm::iterator::module_iterator::ModuleIterator;
+use wirm::module_builder::AddLocal;
 use wirm::opcode::{Instrumenter, Opcode};
 use wirm::Module;
 
@@ -119,7 +121,8 @@ pub fn base_module(b: &Value) -> Vec<u8> {
     if !funcs.is_empty() {
         let mut cs = we::CodeSection::new();
         for f in &funcs {
-            let mut wf = we::Function::new([]);
+            let nl = f["nlocals"].as_u64().unwrap_or(0) as u32;
+            let mut wf = if nl > 0 { we::Function::new([(nl, we::ValType::I32)]) } else { we::Function::new([]) };
             for t in arr(&f["body"]) { body_instr(&mut wf, &t); }
             wf.instruction(&we::Instruction::End);
             cs.function(&wf);
@@ -134,6 +137,24 @@ pub fn base_module(b: &Value) -> Vec<u8> {
             ds.active(u(&d["mem"]), &const_expr(&d["offset"]), bytes);
         }
         m.section(&ds);
+    }
+    if !b["names"].is_null() {
+        let n = &b["names"];
+        let mut ns = we::NameSection::new();
+        let mut fm = we::NameMap::new();
+        for e in arr(&n["funcs"]) { fm.append(u(&e[0]), e[1].as_str().unwrap()); }
+        ns.functions(&fm);
+        let mut lm = we::IndirectNameMap::new();
+        for e in arr(&n["locals"]) {
+            let mut inner = we::NameMap::new();
+            for x in arr(&e[1]) { inner.append(u(&x[0]), x[1].as_str().unwrap()); }
+            lm.append(u(&e[0]), &inner);
+        }
+        ns.locals(&lm);
+        let mut gm = we::NameMap::new();
+        for e in arr(&n["globals"]) { gm.append(u(&e[0]), e[1].as_str().unwrap()); }
+        ns.globals(&gm);
+        m.section(&ns);
     }
     m.finish()
 }
@@ -172,6 +193,10 @@ fn emit<'a, T: Opcode<'a>>(sink: &mut T, toks: &Value, results: &[u32]) {
     }
 }
 
+fn dt(v: &Value) -> DataType {
+    match v.as_str().unwrap() { "i32" => DataType::I32, "i64" => DataType::I64, "f32" => DataType::F32, "f64" => DataType::F64, o => panic!("type {o}") }
+}
+
 fn memty(min: u64) -> wasmparser::MemoryType {
     wasmparser::MemoryType { memory64: false, shared: false, initial: min, maximum: None, page_size_log2: None }
 }
@@ -203,10 +228,27 @@ pub fn apply_history(module: &mut Module<'static>, hist: &[Value]) -> Vec<u32> {
                 *module.add_import_func("env".to_string(), step["name"].as_str().unwrap().to_string(), ty).0
             }
             "add_local_func" => {
-                let mut fb = FunctionBuilder::new(&[], &[DataType::I32]);
+                // params / locals / name are optional: the builder API as a user drives it (C12)
+                let params: Vec<DataType> = arr(&step["params"]).iter().map(dt).collect();
+                let mut fb = FunctionBuilder::new(&params, &[DataType::I32]);
+                for l in arr(&step["locals"]) { fb.add_local(dt(&l)); }
+                if let Some(n) = step["name"].as_str() { fb.set_name(n.to_string()); }
                 emit(&mut fb, &step["body"], &results);
                 *fb.finish_module(module)
             }
+            "replace_import" => {
+                // FunctionBuilder::replace_import_in_module: the import with this ImportsID becomes a local function
+                let mut fb = FunctionBuilder::new(&[], &[DataType::I32]);
+                emit(&mut fb, &step["body"], &results);
+                fb.replace_import_in_module(module, wirm::ir::id::ImportsID(u(&step["import_id"])));
+                0
+            }
+            "convert_local_to_import" => {
+                let ty = module.types.add_func_type(&[], &[DataType::I32], None);
+                // (returns false and changes nothing when the function already is an import)
+                module.convert_local_fn_to_import(FunctionID(resolve(&step["id"], &results)), "env".to_string(), step["name"].as_str().unwrap().to_string(), ty) as u32
+            }
+            "set_fn_name" => { module.set_fn_name(FunctionID(resolve(&step["id"], &results)), step["name"].as_str().unwrap().to_string()); 0 }
             "delete_func" => { module.delete_func(FunctionID(resolve(&step["id"], &results))); 0 }
             "add_import_memory" => *module.add_import_memory("env".to_string(), step["name"].as_str().unwrap().to_string(), memty(step["min"].as_u64().unwrap())).0,
             "add_local_memory" => *module.add_local_memory(memty(step["min"].as_u64().unwrap())),
@@ -272,6 +314,8 @@ pub fn decode_module(bytes: &[u8]) -> Value {
     let (mut imports, mut globals, mut funcs, mut mems, mut tables, mut exports, mut elems, mut data) = (vec![], vec![], vec![], vec![], vec![], vec![], vec![], vec![]);
     let mut start = Value::Null;
     let mut fn_types = vec![];
+    let (mut nfuncs, mut nglobals, mut nlocals) = (vec![], vec![], vec![]);
+    let mut types: Vec<Value> = vec![];
     for payload in wasmparser::Parser::new(0).parse_all(bytes) {
         use wasmparser::Payload as P;
         match payload.unwrap() {
@@ -282,6 +326,13 @@ pub fn decode_module(bytes: &[u8]) -> Value {
                 if let wasmparser::TypeRef::Memory(mt) = i.ty { o["min"] = json!(mt.initial); o["max"] = json!(mt.maximum); }
                 if let wasmparser::TypeRef::Global(gt) = i.ty { o["mut"] = json!(gt.mutable); o["ty"] = json!(format!("{:?}", gt.content_type)); }
                 imports.push(o);
+            },
+            P::TypeSection(r) => for rg in r {
+                for st in rg.unwrap().into_types() {
+                    if let wasmparser::CompositeInnerType::Func(ft) = &st.composite_type.inner {
+                        types.push(json!({"params": ft.params().iter().map(|t| format!("{:?}", t).to_lowercase()).collect::<Vec<_>>(), "results": ft.results().iter().map(|t| format!("{:?}", t).to_lowercase()).collect::<Vec<_>>()}));
+                    } else { types.push(json!(null)); }
+                }
             },
             P::FunctionSection(r) => for t in r { fn_types.push(t.unwrap()); },
             P::GlobalSection(r) => for g in r {
@@ -317,9 +368,10 @@ pub fn decode_module(bytes: &[u8]) -> Value {
             P::CodeSectionEntry(b) => {
                 let mut ops = vec![];
                 let mut nlocals = 0u32;
-                for l in b.get_locals_reader().unwrap() { nlocals += l.unwrap().0; }
+                let mut ltypes: Vec<String> = vec![];
+                for l in b.get_locals_reader().unwrap() { let (n, t) = l.unwrap(); nlocals += n; for _ in 0..n { ltypes.push(format!("{:?}", t).to_lowercase()); } }
                 for op in b.get_operators_reader().unwrap() { ops.push(tok(&op.unwrap())); }
-                funcs.push(json!({"body": ops, "nlocals": nlocals, "type": fn_types.get(funcs.len()).cloned()}));
+                funcs.push(json!({"body": ops, "nlocals": nlocals, "locals": ltypes, "type": fn_types.get(funcs.len()).cloned()}));
             }
             P::DataSection(r) => for d in r {
                 let d = d.unwrap();
@@ -328,10 +380,27 @@ pub fn decode_module(bytes: &[u8]) -> Value {
                     wasmparser::DataKind::Passive => data.push(json!({"mode": "passive", "bytes": d.data})),
                 }
             },
+            P::CustomSection(c) => {
+                if let wasmparser::KnownCustom::Name(r) = c.as_known() {
+                    for sub in r {
+                        match sub.unwrap() {
+                            wasmparser::Name::Function(m) => for n in m { let n = n.unwrap(); nfuncs.push(json!([n.index, n.name])); },
+                            wasmparser::Name::Global(m) => for n in m { let n = n.unwrap(); nglobals.push(json!([n.index, n.name])); },
+                            wasmparser::Name::Local(m) => for i in m {
+                                let i = i.unwrap();
+                                let mut inner = vec![];
+                                for n in i.names { let n = n.unwrap(); inner.push(json!([n.index, n.name])); }
+                                nlocals.push(json!([i.index, inner]));
+                            },
+                            _ => {}
+                        }
+                    }
+                }
+            }
             _ => {}
         }
     }
-    json!({"imports": imports, "globals": globals, "funcs": funcs, "memories": mems, "tables": tables, "exports": exports, "start": start, "elems": elems, "data": data})
+    json!({"types": types, "names": {"funcs": nfuncs, "globals": nglobals, "locals": nlocals}, "imports": imports, "globals": globals, "funcs": funcs, "memories": mems, "tables": tables, "exports": exports, "start": start, "elems": elems, "data": data})
 }
 
 pub fn run_hist(case: &Value) -> Value {
@@ -345,9 +414,15 @@ pub fn run_hist(case: &Value) -> Value {
     let results = apply_history(&mut module, &arr(&case["hist"]));
     crate::stage(3);
     let out = module.encode();
+    let second = if case["encode_twice"].as_bool().unwrap_or(false) {
+        crate::stage(4);
+        let o2 = catch_unwind(AssertUnwindSafe(|| module.encode()));
+        Some(match o2 { Ok(b) => json!({"equal": b == out, "valid": crate::validate(&b).is_ok()}), Err(_) => json!({"equal": false, "panic": true}) })
+    } else { None };
     crate::stage(5);
     let v = crate::validate(&out);
     let mut r = json!({"id": case["id"], "ok": true, "valid": v.is_ok(), "results": results, "out": decode_module(&out), "base": decode_module(base)});
     if let Err(e) = v { r["valid_err"] = json!(e); }
+    if let Some(s2) = second { r["second"] = s2; }
     r
 }
